@@ -255,6 +255,27 @@ def turnTcpRecv (bufLen : Nat) : Cur Nat := do
     turnTcpTail bufLen (4 + body) (4 + (body + 3) / 4 * 4)
   else turnTcpTail bufLen (20 + body) (20 + body)
 
+/-! ### the other TCP frame readers: RFC 4571 framing of `IceSocketWrapper::recv_from` (ice/mod.rs ~4682-4697) and
+`read_tcp_framed_packet` of the shared passive TCP listener (shared_tcp.rs:164-180) -/
+
+/-- `IceSocketWrapper::TcpStream(..).recv_from(buf)`: 2-byte length, rejected when larger than the buffer, body -/
+def tcp4571Recv (bufLen : Nat) : Cur Nat := do
+  if (← remaining) < 2 then bail "early_eof" else
+  let len ← getU16
+  if len > bufLen then bail "TCP_STUN_message_too_large" else
+  let _ ← sliceLen bufLen 0 len                           -- `&mut buf[..len]`
+  readExact len
+  pure len
+
+/-- `read_tcp_framed_packet(stream)`: first frame of an inbound TCP connection -/
+def sharedTcpFirstFrame : Cur Nat := do
+  if (← remaining) < 2 then bail "early_eof" else
+  let len ← getU16
+  if len = 0 ∨ len > c07MaxStunMessage then bail "invalid_TCP_STUN_frame_length" else
+  alloc len                                               -- `vec![0u8; len]`
+  readExact len
+  pure len
+
 /-! ### RTX (src/rtx.rs:49-74) -/
 
 /-- `unwrap_rtx_packet`: `none`, or `(osn, remaining payload length)` -/
